@@ -4,13 +4,26 @@ import vlib, mcdrive
 ASSUME = [
     'bounds: <=3 client sessions + <=2 services links, alphabet of DESIGN.md 1.2 (all valid UTF-8), histories = scenario prefix + <=2 (quick) / <=3 (thorough) further entries',
     'services links send only protocol-conforming lines (prefixed, anope parameter counts)',
-    'glue mirror VerifApply == (*FSM).applyRobustMessage (checked by the C01 conformance tier)',
+    'glue mirror VerifApply == (*FSM).applyRobustMessage (checked by the C01 conformance tier); in addition every scenario state x the reduced alphabet and the non-line entries (DeleteSession of unknown / ended sessions, Config, messages of death ...) go through the real applyRobustMessage of statemachine.go under recover()',
 ]
 RULE = ('every reachable state of the scenario/BFS exploration x every alphabet line x every live session (plus non-line entries); '
         'oracle: recover() around the real ProcessMessage glue; a transition is non-trivial when it changed the state (mutator)')
 
+def prebuild():
+    from checks import c01
+    mcdrive.build_mc()
+    c01.build_glue()
+
 def run(tier):
-    mcdrive.run_mc('C06', tier, ['C06'], ASSUME, RULE)
+    import time
+    from checks import c01
+    t0 = time.time()
+    # the real glue of statemachine.go (the exploration below drives a mirror of it): every scenario state x the
+    # reduced alphabet and the non-line entries through (*FSM).applyRobustMessage, recover() around it
+    glue = vlib.run_workers(c01.build_glue(), 'TestVerifGlueConformance', vlib.NCPU, env={'VERIF_GLUE_PROP': 'C06'})
+    viols = [v for r in glue for v in (r.get('violations') or []) if v.get('prop') == 'C06glue']
+    extra = {'real_glue': {'histories': sum(r.get('histories', 0) for r in glue), 'entries_applied': sum(r.get('entries_compared', 0) for r in glue)}}
+    mcdrive.run_mc('C06', tier, ['C06'], ASSUME, RULE, pre_violations=viols, extra_cov=extra, t0=t0)
 
 def replay(path):
     v = json.load(open(path))
